@@ -5,6 +5,7 @@ import (
 	"context"
 	"encoding/json"
 	"fmt"
+	"io"
 	stdslog "log/slog"
 	"os"
 	"os/exec"
@@ -34,6 +35,10 @@ type c12case struct {
 	Kind    string `json:"logger"`                       // root | child | default
 	Huge    bool   `json:"huge_argument_list,omitempty"` // 1100 arguments instead of 4
 	Bench   bool   `json:"production_process_with_a_-bench_argument,omitempty"`
+	// how the two flags got their values: "" = AddFlags/RemoveFlags; "set" = SetFlags; "window-restored" = set, then the
+	// opposite values inside a SaveFlagsAndMod window whose restore closure ran; "window-active" = the opposite values
+	// first, then the wanted ones inside a SaveFlagsAndMod window that is still open
+	FlagHist string `json:"flag_history,omitempty"`
 }
 
 var c12entries = []string{"verb", "ctxverb", "LogAttrs", "Logit", "Log(std)", "pkg.verb", "pkg.ctxverb"}
@@ -83,6 +88,22 @@ func c12enumerate() []c12case {
 			out = append(out, x)
 		}
 	}
+	// the flag values are what counts, not the idiom that produced them
+	n := 0
+	for _, b := range base {
+		if b.Format == "color" && b.Admit {
+			x := b
+			x.FlagHist = "window-restored"
+			y := b
+			y.FlagHist = []string{"set", "window-active"}[n%2]
+			if n%4 < 2 { // the quick tier takes every second cell: both parities see all three idioms
+				out = append(out, x, y)
+			} else {
+				out = append(out, y, x)
+			}
+			n++
+		}
+	}
 	return out
 }
 
@@ -107,15 +128,40 @@ func c12exec(c *Ctx, out string) {
 		fmt.Fprintln(os.Stderr, "harness usage error:", err)
 		os.Exit(3)
 	}
+	var add, rem slog.Flags
 	if cs.NoInt {
-		slog.AddFlags(slog.LnoInterrupt)
+		add |= slog.LnoInterrupt
 	} else {
-		slog.RemoveFlags(slog.LnoInterrupt)
+		rem |= slog.LnoInterrupt
 	}
 	if cs.Always {
-		slog.AddFlags(slog.Linterruptalways)
+		add |= slog.Linterruptalways
 	} else {
-		slog.RemoveFlags(slog.Linterruptalways)
+		rem |= slog.Linterruptalways
+	}
+	direct := func(add, rem slog.Flags) {
+		slog.AddFlags(add)
+		slog.RemoveFlags(rem)
+	}
+	switch cs.FlagHist {
+	case "set":
+		slog.SetFlags((slog.GetFlags() | add) &^ rem)
+	case "window-restored":
+		direct(add, rem)
+		restore := slog.SaveFlagsAndMod(rem, add) // the opposite values, temporarily
+		quiet := slog.New("inside-window").Root()
+		quiet.SetWriter(io.Discard).SetErrorWriter(io.Discard).SetLevel(slog.AlwaysLevel)
+		quiet.Info("a record inside the window")
+		restore()
+	case "window-active":
+		direct(rem, add)
+		_ = slog.SaveFlagsAndMod(add, rem) // still open when the call is made
+	default:
+		direct(add, rem)
+	}
+	if got := slog.GetFlags(); (got&slog.LnoInterrupt != 0) != cs.NoInt || (got&slog.Linterruptalways != 0) != cs.Always {
+		fmt.Fprintln(os.Stderr, "harness usage error: flags not established", got)
+		os.Exit(3)
 	}
 	var lgL slog.Logger = slog.New("c12")
 	lg := lgL.Root()
